@@ -87,6 +87,9 @@ func execC16(c Case) string {
 		default:
 			panic("harness: ctor")
 		}
+		// the height is independent bookkeeping: unknown at first, then whatever was set, untouched by the accessors
+		h0 := b.Height()
+		b.SetHeight(int32(salt) + 7)
 		ids := &ptrIDs{}
 		res := []string{}
 		txTok := func(t *bchutil.Tx) string {
@@ -161,7 +164,11 @@ func execC16(c Case) string {
 				re = "err"
 			}
 		}
-		return "EXT " + ext + " RES " + joinOr(res, " ") + " RE " + re
+		ht := "height-ok"
+		if h0 != bchutil.BlockHeightUnknown || b.Height() != int32(salt)+7 {
+			ht = "height:" + itoa(int(h0)) + "," + itoa(int(b.Height()))
+		}
+		return "EXT " + ext + " RES " + joinOr(res, " ") + " RE " + re + " " + ht
 	case "blkbig": // blkbig <ctor> <ntx> <salt> <first>: a block too large to transcribe; digests of the accessors
 		ntx, salt := atoi(a[1]), uint32(atou(a[2]))
 		msg := synthBlock(ntx, salt, false)
